@@ -540,7 +540,7 @@ cdef class DefaultRecordBatchBuilder:
         msg_size = self._size_of_body(offset, ts, key, value, headers)
         size = msg_size + cutil.size_of_varint(msg_size)
         # We always allow at least one record to be appended
-        if offset != 0 and pos + size >= self._batch_size:
+        if offset != 0 and pos + size > self._batch_size:
             return None
 
         # Allocate proper buffer length
